@@ -1,5 +1,7 @@
 """C09 - Stop sequences are honoured (clauses 1-2; the sequencing discipline itself is shared with C03, see c03.py)."""
 from pyvc.spec import *
+
+GROUP = 'commander'   # contracts of one group use each other's contracts at call sites (pyvc/hooks.py contract_for_call)
 from contracts.c10 import target_info_known, STOPPED_LIKE
 
 
